@@ -182,6 +182,13 @@ def embeddings_are_homomorphisms(env, cfg, ck):
     ck.eq('SE2.SE3:inverse', ck.call(lambda: E.inv().SE3()).A, ck.call(lambda: E.SE3().inv()).A, scale=sc)
     ck.eq('SE2.SE3:points', ck.call(lambda: E.SE3() * [p2[0], p2[1], 0])[:2], ck.call(lambda: E * p2), scale=sc * (1 + A.normsq(np, p2)))
     ck.eq('SE2.SE3:z', ck.call(lambda: E.SE3(z)).A[2, 3], z)
+    ck.eq('SE2.SE3:value', ck.call(E.SE3).A, A.homog(np, A.homog(np, T[:2, :2], [0, 0]), [T[0, 2], T[1, 2], 0]), scale=sc)
+    # a two-valued object converts value by value
+    EF = sm.SE2([T, U], check=False)
+    M3 = ck.call(EF.SE3)
+    ck.true('SE2.SE3:multi:len', len(M3) == 2)
+    ck.eq('SE2.SE3:multi:0', M3.data[0], ck.call(E.SE3).A, scale=sc)
+    ck.eq('SE2.SE3:multi:1', M3.data[1], ck.call(F.SE3).A, scale=sc)
     r, s_ = env.rot_raw('e', 3), env.rot_raw('f', 3)
     R, S = sm.SO3(r, check=False), sm.SO3(s_, check=False)
     ck.eq('SE3.SO3:value', ck.call(sm.SE3.SO3, R).A, A.homog(np, r, [0, 0, 0]))
